@@ -146,7 +146,11 @@ impl<'r> Gen<'r> {
     }
 
     fn str_literal(&mut self) -> Expr {
-        let s = *self.rng.pick(&["", "a", "b", "abc", "x y", "Z", "é", "\u{e000}", "\u{10000}", "q\"q", "back\\slash", "tab\there", "nl\nx", "%1", "100%"]);
+        let s = *self.rng.pick(&["", "a", "b", "abc", "x y", "Z", "é", "\u{e000}", "\u{10000}", "q\"q", "back\\slash", "tab\there", "nl\nx", "%1", "100%",
+            // characters a C++ literal must escape, directly followed by characters that would extend the escape sequence
+            // (hex digits after \x…, octal digits after \0)
+            // — only characters XML 1.0 can carry, so that the same strings may be constants of the form: DEL and C1 controls
+            "\u{7f}1", "\u{85}a", "\u{9f}F0"]);
         Expr::Str(s.to_owned())
     }
 
